@@ -70,6 +70,32 @@ Theorem C34_stream_roundtrip : forall k size hdr cl flush s rest parseTr, 0 < si
 Proof. exact chunked_stream_roundtrip. Qed.
 Print Assumptions C34_stream_roundtrip.
 
+(* Streams that copy themselves — bytes.Reader, bytes.Buffer, a BodyWriterTo with SupportsBodyWriteTo() = true —
+   are given as the list `segs` of the Write calls their WriteTo makes, EMPTY WRITES INCLUDED anywhere (first,
+   middle, last).  Through chunkedBodyWriter the wire is header ++ the chunked encoding of the non-empty segments ++
+   trailer: an empty write never puts the "0 CRLF" terminator in the middle of the body; with a declared size the
+   wire is header ++ the segments. *)
+Theorem C34_wire_equals_stream_chunked_writeto : forall size hdr trailer cl flush segs, 0 < size -> cl < 0 ->
+  Forall (fun p => blen p < 16 ^ maxHexIntChars64) segs ->
+  exists w', respWriteBodyStreamWT hdr trailer cl true flush (bw_new size (-1)) segs = (w', WOk) /\
+             bw_wire w' = hdr ++ enc_chunks (nonempty_segs segs) ++ trailer.
+Proof. exact wire_chunked_wt. Qed.
+Print Assumptions C34_wire_equals_stream_chunked_writeto.
+Theorem C34_wire_equals_stream_fixed_writeto : forall size hdr trailer flush segs, 0 < size ->
+  exists w', respWriteBodyStreamWT hdr trailer (blen (concat segs)) true flush (bw_new size (-1)) segs = (w', WOk) /\
+             bw_wire w' = hdr ++ concat segs.
+Proof. exact wire_fixed_wt. Qed.
+Print Assumptions C34_wire_equals_stream_fixed_writeto.
+(* ... and the peer decodes exactly the concatenation of all segments, leaving the next message untouched *)
+Theorem C34_stream_roundtrip_writeto : forall size hdr cl flush segs rest parseTr, 0 < size -> cl < 0 ->
+  wf_bytes (concat segs) -> wf_bytes rest -> blen (concat segs) + 2 <= maxAlloc ->
+  exists w' wire_body pk, respWriteBodyStreamWT hdr strCRLF cl true flush (bw_new size (-1)) segs = (w', WOk) /\
+    bw_wire w' = hdr ++ wire_body /\
+    respReadBody parseTr (-1) 0 0 [] (wire_body ++ rest) = BOk (concat segs) rest pk /\
+    reqReadBody parseTr (-1) 0 (wire_body ++ rest) = BOk (concat segs) rest pk.
+Proof. exact chunked_wt_roundtrip. Qed.
+Print Assumptions C34_stream_roundtrip_writeto.
+
 (* Exactly once.  For a Request or a Response and EVERY sequence of operations (SetBodyStream,
    SetBody/AppendBody, ResetBody, Reset/Release, CloseBodyStream, Write and Body()/SwapBody/
    BodyWriteTo with success, error or a panicking Read, compression wrapping, the compressor
@@ -120,6 +146,12 @@ Proof. vm_compute. repeat split; reflexivity. Qed.
 Example C34_ex_write :
   let out := respWriteBodyStream KReader (s2b "H") [13;10]%N (-1) true false (bw_new 4 (-1)) (mkSS (s2b "abcdef") [OData 4; OZero; ODataEOF 9]) in
   ws_res out = WOk /\ ws_closed out = true /\ bw_wire (ws_w out) = s2b "H" ++ enc_chunks [s2b "abcd"; s2b "ef"] ++ [13;10]%N.
+Proof. vm_compute. repeat split; reflexivity. Qed.
+Example C34_ex_writeto_empty_segments :
+  fst (respWriteBodyStreamWT (s2b "H") [13;10]%N (-1) true false (bw_new 64 (-1)) [[]; s2b "hello "; []; s2b "world"; []])
+  = fst (respWriteBodyStreamWT (s2b "H") [13;10]%N (-1) true false (bw_new 64 (-1)) [s2b "hello "; s2b "world"])
+  /\ bw_wire (fst (respWriteBodyStreamWT (s2b "H") [13;10]%N (-1) true false (bw_new 64 (-1)) [s2b "hello "; []; s2b "world"]))
+     = s2b "H" ++ enc_chunks [s2b "hello "; s2b "world"] ++ [13;10]%N.
 Proof. vm_compute. repeat split; reflexivity. Qed.
 Example C34_ex_panic_then_reset :
   match lrun MResp ls_init [LSetBodyStream true; LWrite FPanic] with
